@@ -100,7 +100,7 @@ def handleGen (op : String) (j : Json) : Except String Json := do
     match eam_init_potentials (fun p => ⟨p.id⟩) ord (fun s => (look s).bind (·.2.2.1)) (fun s => (look s).bind (·.2.1)) (fun s => (look s).bind (·.2.2.2.1)) (fun s => (look s).bind (·.2.2.2.2))
         (← getBool j "add_undefined") ⟨← rows "embed", ← rows "density"⟩ () () with
     | .ok l => return arrJ (l.map fun e => arrJ [Json.str e.species, intJ e.atomicNumber, ratJ e.mass, ratJ e.latticeConstant, Json.str e.latticeType, natJ e.embed.fid, natJ e.dens.fid])
-    | .error e => return Json.str (match e with | .speciesMismatch => "speciesMismatch" | .noMass => "noMass" | .noAtomicNumber => "noAtomicNumber" | .keyError => "keyError")
+    | .error e => return Json.str (match e with | .speciesMismatch => "speciesMismatch" | .noMass => "noMass" | .noAtomicNumber => "noAtomicNumber" | .keyError => "keyError" | .duplicateDensity => "duplicateDensity")
   | "modifiers" =>
     -- sum / product / pow of _modifiers.py on constant callables: a callable is its (natural) value, the combinators are + * ^ on values
     let ids ← (← getArr j "ids").mapM fun x => x.getNat?
@@ -116,6 +116,28 @@ def handleGen (op : String) (j : Json) : Except String Json := do
     let n ← getNat j "n"
     let forms : List (String × FormObj) := (List.range n).map fun i => (toString i, ⟨i⟩)
     return arrJ ((register_with_each_other (fun f => ⟨f.id⟩) forms []).map fun p => arrJ [natJ p.1.id, natJ p.2.id])
+  | "create_tabulation" =>
+    -- create_tabulation of the four kinds of factory on a [Tabulation] section (absent keys are null); the pair objects and the EAM objects are opaque lists (2 and 3
+    -- items); `pair_fails` / `builder_fails`: the builders raise; the tabulation class records its constructor arguments (lengths and numbers)
+    let opt := fun (k : String) => match j.getObjVal? k with | .ok Json.null => none | .ok _ => (getRat j k).toOption | .error _ => none
+    let optI := fun (k : String) => match j.getObjVal? k with | .ok Json.null => none | .ok _ => (getInt j k).toOption | .error _ => none
+    let t : TabSec := ⟨opt "cutoff", optI "nr", opt "cutoff_rho", optI "nrho"⟩
+    let pots : List PotObj := [⟨"A", "B", ⟨1⟩⟩, ⟨"B", "B", ⟨2⟩⟩]
+    let pf ← getBool j "pair_fails"
+    let bf ← getBool j "builder_fails"
+    let pairObjects := fun (_ _ : Unit) (_ : CpRec) => if pf then (.error FactoryErr.other : Except FactoryErr (List PotObj)) else .ok pots
+    let eamBuilder := fun (_ : CpRec) (_ _ : Unit) (_ : RefObj) => if bf then (.error FactoryErr.other : Except FactoryErr BuilderObj) else .ok ⟨3⟩
+    let eams := fun (b : BuilderObj) => (List.range b.id).map fun i => ({ species := toString i, atomicNumber := 1, mass := 1, latticeConstant := 0, latticeType := "fcc", embed := ⟨1⟩ } : EamRec)
+    let tab3 := fun (a : List PotObj × Rat × Int) => (⟨[(a.1.length : Rat), a.2.1, (a.2.2 : Rat)]⟩ : TabObj)
+    let tab6 := fun (a : List PotObj × List EamRec × Rat × Int × Rat × Int) => (⟨[(a.1.length : Rat), (a.2.1.length : Rat), a.2.2.1, (a.2.2.2.1 : Rat), a.2.2.2.2.1, (a.2.2.2.2.2 : Rat)]⟩ : TabObj)
+    let r := match (← getStr j "which") with
+      | "pair" => pair_create_tabulation pairObjects tab3 ⟨t⟩
+      | "dlpoly" => dlpoly_create_tabulation pairObjects tab3 ⟨t⟩
+      | "lammps" => lammps_create_tabulation pairObjects tab3 ⟨t⟩
+      | _ => eam_create_tabulation pairObjects (fun _ => ⟨0⟩) eamBuilder eams tab6 ⟨t⟩
+    match r with
+    | .ok o => return arrJ (o.args.map ratJ)
+    | .error e => return Json.str (match e with | .notMultipleOfFour => "notMultipleOfFour" | .fourRowsOrFewer => "fourRowsOrFewer" | .fewerThanThreePoints => "fewerThanThreePoints" | .other => "other")
   | "read_from_parser" =>
     -- Configuration.read_from_parser: factory table (names, in order; factories named in `failing` raise), the parser's target or null
     let names ← getStrs j "factories"
@@ -143,6 +165,21 @@ def handleGen (op : String) (j : Json) : Except String Json := do
     match pair_init_potentials lookupM lookupF applyM applyF mk rows 0 0 with
     | .ok l => return arrJ (l.map fun p => arrJ [Json.str p.a, Json.str p.b, natJ p.fn.id])
     | .error e => return Json.str (match e with | .unknownModifier => "unknownModifier" | .unknownForm => "unknownForm" | .problemDefining => "problemDefining")
+  | "eam_builder_fs" =>
+    -- EAM_Potential_Builder_FS._init_eampotentials on embed rows (species, function id), density rows (from, to, function id) and a reference-data table;
+    -- each element's inner dictionary is reported sorted by neighbour (its order is not part of what is compared)
+    let erows ← (← getArr j "embed").mapM fun r => do return ({ species := ← getStr r "sp", pfi := ⟨← getNat r "fid"⟩ } : EmbRow)
+    let drows ← (← getArr j "density").mapM fun r => do return ({ species := ⟨← getStr r "from", ← getStr r "to"⟩, pfi := ⟨← getNat r "fid"⟩ } : FsRow)
+    let metaT ← (← getArr j "meta").mapM fun r => do
+      return ((← getStr r "sp"), (getInt r "z").toOption, (getRat r "mass").toOption, (getRat r "a0").toOption, (getStr r "lat").toOption)
+    let look := fun (s : String) => metaT.find? fun e => e.1 == s
+    let ord : List String → List String := if (← getBool j "reverse") then List.reverse else id
+    match eam_init_potentials_fs (fun p => ⟨p.id⟩) ord (fun s => (look s).bind (·.2.2.1)) (fun s => (look s).bind (·.2.1)) (fun s => (look s).bind (·.2.2.2.1)) (fun s => (look s).bind (·.2.2.2.2))
+        (← getBool j "add_undefined") ⟨erows, drows⟩ () () with
+    | .ok l => return arrJ (l.map fun e => arrJ [Json.str e.species, intJ e.atomicNumber, ratJ e.mass, ratJ e.latticeConstant, Json.str e.latticeType, natJ e.embed.fid,
+        arrJ ((stableSortBy (fun a b => decide (a.1 ≤ b.1)) e.densFS).map fun p => arrJ [Json.str p.1, natJ p.2.fid])])
+    | .error e => return Json.str (match e with | .speciesMismatch => "speciesMismatch" | .noMass => "noMass" | .noAtomicNumber => "noAtomicNumber" | .keyError => "keyError"
+                                                | .duplicateDensity => "duplicateDensity")
   | "tab_write" =>
     -- the `write` methods of the tabulation objects; answer: the tokens (or "raised") and the number of chunks the destination-mode twin hands the destination
     let which ← getStr j "which"
